@@ -347,5 +347,55 @@ func TestVerifC20RaceBodies(t *testing.T) {
 			}
 		}
 	}
-	r.Sample(map[string]any{"goroutines": []int{2, 4, 16}, "repetitions": reps, "bodies": "prepare?;prove(nonrev);prepare?"})
+	// one public key shared by many signers / signature verifiers / randomisers (distinct message blocks)
+	{
+		n := 8
+		blocks := make([][]*big.Int, n)
+		sigs := make([]*CLSignature, n)
+		for i := range blocks {
+			blocks[i] = []*big.Int{vfTag(fmt.Sprintf("blk-%d-0", i)), vfTag(fmt.Sprintf("blk-%d-1", i)), vfPow2(300), vfInt(int64(i))}
+			sigs[i] = vfSign(k, blocks[i], i)
+		}
+		for rep := 0; rep < reps; rep++ {
+			var wg sync.WaitGroup
+			bad := make([]string, n)
+			start := make(chan struct{})
+			for i := 0; i < n; i++ {
+				i := i
+				wg.Add(1)
+				go func() {
+					defer wg.Done()
+					<-start
+					for round := 0; round < 20; round++ {
+						if !sigs[i].Verify(pk, blocks[i]) {
+							bad[i] = "valid signature rejected"
+						}
+						if sigs[i].Verify(pk, blocks[(i+1)%n]) {
+							bad[i] = "signature accepted over another block"
+						}
+						rs, err := sigs[i].Randomize(pk)
+						if err != nil || !rs.Verify(pk, blocks[i]) {
+							bad[i] = "randomised signature rejected"
+						}
+					}
+					if i%4 == 0 && rep%3 == 0 {
+						s2, err := SignMessageBlock(k.Sk, pk, blocks[i])
+						if err != nil || !s2.Verify(pk, blocks[i]) {
+							bad[i] = "concurrently produced signature invalid"
+						}
+					}
+				}()
+			}
+			close(start)
+			wg.Wait()
+			r.Eval()
+			r.Nontrivial(fmt.Sprintf("clsig|%d", rep))
+			for i, b := range bad {
+				if b != "" {
+					r.Violate("C20|concurrent-cl-signature-use|"+b, fmt.Sprintf("goroutine %d: %s", i, b), nil)
+				}
+			}
+		}
+	}
+	r.Sample(map[string]any{"goroutines": []int{2, 4, 16}, "repetitions": reps, "bodies": "prepare?;prove(nonrev);prepare?  |  8 goroutines: CLSignature.Verify / Randomize / SignMessageBlock on one public key"})
 }
